@@ -327,6 +327,28 @@ def check_enums(ctx):
                     ctx.violate("default weights are not 1 where the mirror is present and 2 otherwise", {"op": kind, "n": n}, {"kind": "weights"})
 
 
+def check_fresh_enums(ctx):
+    import fixtures
+    from arim import ut
+
+    for n in (1, 2, 3, 5, 8):
+        fixtures.check_fresh(ctx, "fmc", lambda: ut.fmc(n), {"op": "fresh", "fn": "fmc", "n": n})
+        fixtures.check_fresh(ctx, "hmc", lambda: ut.hmc(n), {"op": "fresh", "fn": "hmc", "n": n})
+        tx, rx = ut.hmc(n)
+        fixtures.check_fresh(ctx, "default_timetrace_weights", lambda: ut.default_timetrace_weights(tx, rx), {"op": "fresh", "fn": "default_timetrace_weights", "n": n})
+    # a frame built directly on the enumeration, then edited by its owner, must not change the next enumeration
+    import arim
+    tx, rx = ut.fmc(3)
+    fr = build(3, [(int(a), int(b), k + 1) for k, (a, b) in enumerate(zip(tx, rx))])
+    try:
+        fr.tx[...] = 0
+    except Exception:
+        pass
+    t2, r2 = ut.fmc(3)
+    if [int(v) for v in t2] != [0, 0, 0, 1, 1, 1, 2, 2, 2] or [int(v) for v in r2] != [0, 1, 2] * 3:
+        ctx.violate("fmc(3) is no longer the full-matrix enumeration after a frame's tx array was edited", {"op": "fresh", "fn": "fmc"}, {"kind": "shared_result"})
+
+
 def run(ctx):
     rng = ctx.rng
     ctx.rule = ("random frames (1-9 elements; FMC, HMC both orientations, random subsets; shuffled), histories of 1-5 operations among "
@@ -334,6 +356,7 @@ def run(ctx):
                 "boolean masks, integer lists with negative entries (3% malformed); distinct = distinct request line; non-trivial = at least 2 timetraces and one op succeeded")
     check_enums(ctx)
     check_duplicates(ctx)
+    check_fresh_enums(ctx)
     n = 700 * ctx.scale
     runs = []
     for _ in range(n):
